@@ -47,6 +47,17 @@ static long pick_cutoff(rng_t *r, int m, int k, int n) {
   return 0;
 }
 
+/* PLE-based routines only update the block right of the first 512 columns (A11) when the matrix is wider than that, and only consult the
+ * not-full-rank lookup tables when a column stripe has fewer pivots than columns: wide, rank deficient shapes with zero / dependent leading columns. */
+static int wide_ple_shape(rng_t *r, sbuf_t *o, int reg, int *m_out, int *n_out) {
+  int m = 20 + (int)rng_below(r, 230), n = 513 + (int)rng_below(r, 600);
+  int lead = (int)rng_below(r, 40);      /* leading zero columns */
+  unsigned long long s = (unsigned long long)(rng_u64(r) >> 1);
+  sb_printf(o, "mat %d %d %d widegap %d %llu\n", reg, m, n, lead * 1000 + 1 + (int)rng_below(r, (uint64_t)(m < 200 ? m : 200)), s);
+  *m_out = m; *n_out = n;
+  return 0;
+}
+
 const char *const gen_all_ops[] = {
   "mul_naive", "addmul_naive", "mul_va", "mul_m4rm", "addmul_m4rm", "mul", "addmul", "sqr", "djb",
   "ech_naive", "ech_m4ri", "ech_pluq", "ech", "top_ech",
@@ -93,7 +104,8 @@ int gen_case(rng_t *r, const char *op, const genopt_t *g, sbuf_t *o, int rb, int
   if (IS("ech_naive") || IS("ech_m4ri") || IS("ech_pluq") || IS("ech") || IS("top_ech")) {
     int m = gen_dim(r, D), n = gen_dim(r, D);
     if (IS("ech_naive") && m > 500) m = 1 + m % 500;
-    emit_mat(r, o, rb, m, n, rng_chance(r, 1, 2) ? "rank" : NULL, 1 + (long)rng_below(r, (uint64_t)(m < n ? m : n)));
+    if (!IS("ech_naive") && D >= 200 && rng_chance(r, 1, 4)) wide_ple_shape(r, o, rb, &m, &n);
+    else emit_mat(r, o, rb, m, n, rng_chance(r, 1, 2) ? "rank" : NULL, 1 + (long)rng_below(r, (uint64_t)(m < n ? m : n)));
     if (IS("ech_m4ri")) sb_printf(o, "op %s %d %d %d\n", op, rb, (int)rng_below(r, 2), (int)rng_below(r, 9));
     else if (IS("top_ech")) sb_printf(o, "op %s %d %d\n", op, rb, (int)rng_below(r, 9));
     else sb_printf(o, "op %s %d %d\n", op, rb, (int)rng_below(r, 2));
@@ -102,7 +114,8 @@ int gen_case(rng_t *r, const char *op, const genopt_t *g, sbuf_t *o, int rb, int
   if (IS("ple") || IS("pluq") || IS("ple_naive") || IS("pluq_naive") || IS("ple_russian") || IS("pluq_russian")) {
     int m = gen_dim(r, D), n = gen_dim(r, D);
     if ((IS("ple_naive") || IS("pluq_naive")) && m > 400) m = 1 + m % 400;
-    emit_mat(r, o, rb, m, n, rng_chance(r, 1, 2) ? "rank" : NULL, 1 + (long)rng_below(r, (uint64_t)(m < n ? m : n)));
+    if (!IS("ple_naive") && !IS("pluq_naive") && D >= 200 && rng_chance(r, 1, 3)) wide_ple_shape(r, o, rb, &m, &n);
+    else emit_mat(r, o, rb, m, n, rng_chance(r, 1, 2) ? "rank" : NULL, 1 + (long)rng_below(r, (uint64_t)(m < n ? m : n)));
     emit_perm(r, o, pb, m, rng_chance(r, 1, 2) ? "junk" : "id");
     emit_perm(r, o, pb + 1, n, rng_chance(r, 1, 2) ? "junk" : "id");
     long par = 0;
@@ -145,7 +158,8 @@ int gen_case(rng_t *r, const char *op, const genopt_t *g, sbuf_t *o, int rb, int
   }
   if (IS("kernel")) {
     int m = gen_dim(r, D), n = gen_dim(r, D);
-    emit_mat(r, o, rb + 1, m, n, rng_chance(r, 1, 2) ? "rank" : NULL, 1 + (long)rng_below(r, (uint64_t)(m < n ? m : n)));
+    if (D >= 200 && rng_chance(r, 1, 4)) wide_ple_shape(r, o, rb + 1, &m, &n);
+    else emit_mat(r, o, rb + 1, m, n, rng_chance(r, 1, 2) ? "rank" : NULL, 1 + (long)rng_below(r, (uint64_t)(m < n ? m : n)));
     long cs[] = { 0, 0, 64, 128, 256 };
     sb_printf(o, "op kernel %d %d %ld\n", rb, rb + 1, cs[rng_below(r, 5)]);
     return 2;
